@@ -205,6 +205,14 @@ def run_check(prop, tier, seed):
         if viol is None:
             print(f"HARNESS_ERROR property={prop} violation of run {first['idx']} did not re-execute")
             return 2
+        # the schedule actually taken is written into the replay file (explicit decision list) when
+        # replaying that list reproduces the same violation; otherwise the seeded streams are kept
+        if res.get("sched_decisions"):
+            explicit = dict(small, sched={"mode": "explicit", "decisions": res["sched_decisions"]})
+            res_e = engine.execute(explicit)
+            viol_e = next((v for v in res_e["violations"] if v["signature"] == signature), None)
+            if viol_e is not None and viol_e.get("step") == viol.get("step"):
+                small, res, viol = explicit, res_e, viol_e
         path = batch.write_replay(prop, small, viol, res["fingerprint"])
         report = batch.replay_in_fresh_process(prop, path)
         if not report.get("reproduced") or not report.get("fingerprint_matches"):
